@@ -167,6 +167,14 @@ fn has_complete_http_data(data: &[u8], processors: &HttpProcessors) -> bool {
     processors.parse_request(data).is_some() || processors.parse_response(data).is_some()
 }
 
+/// A segment that is already stored (same sequence number, same bytes) is a retransmission:
+/// storing it again would put its bytes into the rebuilt stream twice.
+fn is_retransmission(stored: &[TcpData], segment: &TcpData) -> bool {
+    stored
+        .iter()
+        .any(|d| d.sequence == segment.sequence && d.data == segment.data)
+}
+
 impl TcpFlow {
     fn init(
         src_ip: IpAddr,
@@ -283,7 +291,7 @@ fn process_tcp_packet(
 
             if is_client && src_ip == flow.client_ip && src_port == flow.client_port {
                 // Only add data and parse if not already parsed
-                if !flow.client_http_parsed {
+                if !flow.client_http_parsed && !is_retransmission(&flow.client_data, &tcp_data) {
                     flow.client_data.push(tcp_data);
                     let full_data = flow.get_full_data(is_client);
 
@@ -299,11 +307,11 @@ fn process_tcp_packet(
                         }
                     }
                 } else {
-                    debug!("CLIENT: HTTP already parsed, discarding additional data");
+                    debug!("CLIENT: HTTP already parsed or segment retransmitted, discarding data");
                 }
             } else if src_ip == flow.server_ip && src_port == flow.server_port {
                 // Only add data and parse if not already parsed
-                if !flow.server_http_parsed {
+                if !flow.server_http_parsed && !is_retransmission(&flow.server_data, &tcp_data) {
                     flow.server_data.push(tcp_data);
                     let full_data = flow.get_full_data(is_client);
 
@@ -321,7 +329,7 @@ fn process_tcp_packet(
                         debug!("SERVER: Data not complete yet, waiting for more");
                     }
                 } else {
-                    debug!("SERVER: HTTP already parsed, discarding additional data");
+                    debug!("SERVER: HTTP already parsed or segment retransmitted, discarding data");
                 }
             }
 
